@@ -546,3 +546,25 @@ Proof.
     + rewrite empty_patch in Ha. injection Ha as <-. reflexivity.
     + rewrite Ha. reflexivity.
 Qed.
+
+(* make_patch as an oracle with the law the harness validates on every run: identical texts give the
+   empty patch, otherwise the text of a valid edit script *)
+Definition make_patch_law (mk : bytes -> bytes -> bytes -> bytes) : Prop :=
+  forall name a b,
+    (a = b /\ mk name a b = []) \/
+    (exists hdr s, forallb hdr_line hdr = true /\ valid_script a b s /\ mk name a b = render hdr s).
+
+Lemma diff_then_patch mk yours theirs : make_patch_law mk ->
+  patch_files yours (diff_files mk yours theirs) = Ok theirs.
+Proof.
+  intro Hmk. apply patch_files_ok. unfold diff_files.
+  induction theirs as [|[n t] theirs IH]; [constructor|].
+  cbn [map]. constructor; [|exact IH]. split; [reflexivity|]. cbn [fst snd].
+  destruct (Hmk n (lookup n yours) t) as [[Heq Hm]|(hdr & s & Hh & Hv & Hm)].
+  - left. split; [exact Hm|exact Heq].
+  - right. exists hdr, s. repeat split; assumption || apply Hv.
+Qed.
+
+Lemma apply_then_revert a b hdr s : forallb hdr_line hdr = true -> valid_script a b s ->
+  bind (apply_patch a (render hdr s) false) (fun t => apply_patch t (render hdr s) true) = Ok a.
+Proof. intros Hh Hv. rewrite (apply_ok a b hdr s Hh Hv). cbn [bind]. apply revert_ok; assumption. Qed.
